@@ -8,12 +8,12 @@ EXTENDS Integers, Sequences, TLC, Json
 
 Trace == ndJsonDeserialize("trace.ndjson")
 
-VARIABLES i, storedGen, last, pre
-vars == <<i, storedGen, last, pre>>
+VARIABLES i, storedGen, last, pre, failed     \* failed: refresh attempts the provider refused in this behaviour
+vars == <<i, storedGen, last, pre, failed>>
 
 NoEvent == [kind |-> "none", r |-> 0, gen |-> -1, ok |-> FALSE, served |-> 0, calls |-> 0, n |-> 0, status |-> 0, cleared |-> FALSE,
             panic |-> FALSE, mode |-> "none", stale |-> FALSE, lockExpires |-> FALSE, eid |-> 0, trace |-> 0]
-Init == i = 1 /\ storedGen = 0 /\ last = NoEvent /\ pre = 0
+Init == i = 1 /\ storedGen = 0 /\ last = NoEvent /\ pre = 0 /\ failed = 0
 
 Consume ==
     /\ i <= Len(Trace)
@@ -24,6 +24,9 @@ Consume ==
                          [] e.kind = "set"   -> e.gen
                          [] e.kind = "del"   -> -1
                          [] OTHER            -> storedGen
+       /\ failed' = CASE e.kind = "begin" -> 0
+                       [] e.kind = "refresh" /\ ~e.ok -> failed + 1
+                       [] OTHER -> failed
     /\ i' = i + 1
 Next == Consume
 Spec == Init /\ [][Next]_vars
@@ -32,7 +35,9 @@ Working == last.mode \in {"ok", "norotate"}
 Served  == last.kind = "done" /\ last.ok
 
 \* a stale session is never honoured with the tokens it had before the refresh period ran out (when the provider can refresh)
-Mon_NoStaleServe == (Served /\ last.stale /\ Working) => last.gen >= 1
+\* When the lock expires under a holder, a second request redeems a refresh token the first has already spent (rotation): the
+\* provider refuses, the request falls back to re-validation and is rightly honoured with the tokens it holds (Refresh!validated).
+Mon_NoStaleServe == (Served /\ last.stale /\ Working) => (last.gen >= 1 \/ (last.lockExpires /\ failed > 0))
 \* whoever is served carries what is stored: the new tokens
 Mon_NewTokens    == (Served /\ Working /\ ~last.lockExpires) => last.gen = pre
 \* later requests carry the new tokens too
